@@ -160,6 +160,23 @@ func (g *Engine) registerIntrinsics() {
 		e.allocWatch--
 		return e.tb.K(64, uint64(len(e.allocEvents)-n0))
 	})
+	// vxSharedWatch(on): writes to package-level variables of the package under test need a held mutex
+	vx("vxSharedWatch", func(e *Exec, a []Value, pos token.Pos) Value {
+		e.sharedWatch = a[0].(*Term).isTrue()
+		return nil
+	})
+	// vxJoinModel(on): WaitGroups count; goroutines started from now on run lazily at the Wait that joins them
+	vx("vxJoinModel", func(e *Exec, a []Value, pos token.Pos) Value {
+		e.joinModel = a[0].(*Term).isTrue()
+		if e.wgCount == nil {
+			e.wgCount = map[string]int{}
+		}
+		return nil
+	})
+	// vxGoroutinesLive(): goroutines started under the join model that have not run to completion
+	vx("vxGoroutinesLive", func(e *Exec, a []Value, pos token.Pos) Value {
+		return e.tb.K(64, uint64(e.goLive))
+	})
 	vx("vxReach", func(e *Exec, a []Value, pos token.Pos) Value {
 		e.reach[e.argStr(a[0])] = true
 		return nil
@@ -364,9 +381,29 @@ func (g *Engine) registerIntrinsics() {
 	I["(*sync.RWMutex).RLock"] = func(e *Exec, fn *ssa.Function, a []Value, pos token.Pos) Value { e.lock(a[0], true, pos); return nil }
 	I["(*sync.RWMutex).RUnlock"] = func(e *Exec, fn *ssa.Function, a []Value, pos token.Pos) Value { e.unlock(a[0], true, pos); return nil }
 	nop := func(e *Exec, fn *ssa.Function, a []Value, pos token.Pos) Value { return nil }
-	I["(*sync.WaitGroup).Add"] = nop
-	I["(*sync.WaitGroup).Done"] = nop
-	I["(*sync.WaitGroup).Wait"] = nop
+	I["(*sync.WaitGroup).Add"] = func(e *Exec, fn *ssa.Function, a []Value, pos token.Pos) Value {
+		if e.joinModel {
+			e.wgCount[mutexKey(e.ptr(a[0], pos))] += int(int64(a[1].(*Term).k))
+		}
+		return nil
+	}
+	I["(*sync.WaitGroup).Done"] = func(e *Exec, fn *ssa.Function, a []Value, pos token.Pos) Value {
+		if e.joinModel {
+			k := mutexKey(e.ptr(a[0], pos))
+			e.wgCount[k]--
+			if e.wgCount[k] < 0 {
+				e.check(e.tb.False(), "panic", "sync: negative WaitGroup counter", pos)
+				panic(pathEnd{"wg-negative"})
+			}
+		}
+		return nil
+	}
+	I["(*sync.WaitGroup).Wait"] = func(e *Exec, fn *ssa.Function, a []Value, pos token.Pos) Value {
+		if e.joinModel {
+			e.wgWait(mutexKey(e.ptr(a[0], pos)), pos)
+		}
+		return nil
+	}
 	// sync.Cond.Wait in the sequential model: release L, let the harness run the pending events, re-acquire L.
 	// A wait that is never satisfied (no pending events left) is the deadlock "the caller blocks for ever".
 	I["(*sync.Cond).Wait"] = func(e *Exec, fn *ssa.Function, a []Value, pos token.Pos) Value {
